@@ -153,3 +153,90 @@ def param_wiring(ctx, fns, loop):
 def _anc(node):
     from .loader import ancestors
     return ancestors(node)
+
+
+# --------------------------------------------------------------------------- row prologue (evaluated as a block)
+TRUTHY_SPELLINGS = ("yes", "Yes", "YES", "true", "True", "TRUE", "true()")
+FALSY_SPELLINGS = ("no", "No", "NO", "false", "False", "FALSE", "false()")
+
+
+def row_loop_of(w2j):
+    cands = []
+    for x in walk_own(w2j.node):
+        if isinstance(x, ast.For) and isinstance(x.iter, ast.Call) and getattr(x.iter.func, "id", "") == "enumerate" \
+                and any(k.arg == "start" for k in x.iter.keywords) and len(x.body) > 20:
+            cands.append(x)
+    if len(cands) != 1:
+        raise AnalysisError("anchor", f"row loop of workbook_to_json not found uniquely ({len(cands)} candidates)")
+    return cands[0]
+
+
+def eval_prologue(ctx, rid, w2j, loop, row, row_number=7):
+    """Evaluate the statements of one loop iteration from the top of the body up to the statement that parses the
+    `parameters` cell (frame lookup, deprecated `disabled` column, empty rows, type / name extraction, rows without a
+    type).  -> (outcome, warnings, row, env); outcome in 'proceeds' | 'skipped' | ('error', Raised)."""
+    from .interp import Raised, _Continue
+    from .loader import norm
+    body = []
+    for st in loop.body:
+        if any(isinstance(n, ast.Name) and isinstance(n.ctx, ast.Store) and n.id == "parameters" for n in ast.walk(st)):
+            break
+        body.append(st)
+    if not body or len(body) == len(loop.body):
+        raise AnalysisError(rid, "row prologue (statements before the parameters cell is parsed) not found")
+    targets = {n.id for n in ast.walk(loop.target) if isinstance(n, ast.Name)}
+    rn_name = next((n for n in targets if "number" in n or n in ("i", "idx")), None)
+    row_name = next((n for n in targets if n != rn_name), None)
+    warnings = []
+    frame = {"control_type": None, "control_name": None, "parent_children": []}
+    env = {row_name: row, rn_name: row_number, "stack": [frame], "warnings": warnings}
+    it = ctx.interp(rid)
+    it.reset([])
+    try:
+        it.exec_block(body, env, w2j.module)
+        return "proceeds", warnings, row, env
+    except _Continue:
+        return "skipped", warnings, row, env
+    except Raised as e:
+        return ("error", e), warnings, row, env
+
+
+def row_prologue_obligations(ctx, rule, rid):
+    """Which rows the loop takes up, skips, or rejects before anything else looks at them - over the documented shapes:
+    the deprecated `disabled` column in every truth spelling, empty rows, comment rows, rows without a type."""
+    w2j = ctx.func("pyxform.xls2json:workbook_to_json", rid)
+    loop = row_loop_of(w2j)
+    base = {"type": "text", "name": "q", "label": "L"}
+
+    def cites(ws, n=7):
+        return [w for w in ws if f"[row : {n}]" in str(w)]
+
+    cases = []
+    for v in TRUTHY_SPELLINGS:
+        cases.append((f"disabled={v!r} on a question row", {**base, "disabled": v}, "skipped", 1))
+    for v in (*FALSY_SPELLINGS, "maybe"):
+        cases.append((f"disabled={v!r} on a question row", {**base, "disabled": v}, "proceeds", 1))
+    cases += [("row holding only disabled='yes'", {"disabled": "yes"}, "skipped", 1), ("row holding only disabled='no'", {"disabled": "no"}, "skipped", 1),
+              ("empty row", {}, "skipped", 0), ("plain question row", dict(base), "proceeds", 0),
+              ("no type, neither name nor label (comment row)", {"hint": "just a remark"}, "skipped", 1),
+              ("no type, name only", {"name": "q"}, "error", 0), ("no type, label only", {"label": "L"}, "error", 0), ("no type, name and label", {"name": "q", "label": "L"}, "error", 0),
+              ("empty type cell, name only", {"type": "", "name": "q"}, "error", 0), ("no type, name and other cells", {"name": "q", "bind": {"calculate": "1"}}, "error", 0)]
+    for desc, row, want, n_warn in cases:
+        row = {k: (dict(v) if isinstance(v, dict) else v) for k, v in row.items()}
+        out, ws, row_after, env = eval_prologue(ctx, rid, w2j, loop, row)
+        kind = out if isinstance(out, str) else "error"
+        why = f"outcome {kind}, {len(ws)} warning(s)"
+        ok = kind == want
+        if ok and kind == "error":
+            e = out[1]
+            msg = str(e.exc_args[0]) if e.exc_args else ""
+            ok = "PyXFormError" in e.mro and "[row : 7]" in msg
+            why = f"raises {e.exc_name}: {msg[:60]!r}"
+        if ok and kind != "error":
+            ok = len(ws) == n_warn and len(cites(ws)) == n_warn
+            why += f", citing the row: {len(cites(ws))}"
+        if ok and kind == "proceeds":
+            ok = "disabled" not in row_after and all(row_after.get(k) == v for k, v in row.items() if k != "disabled")
+            why += f"; row afterwards {row_after!r}"
+        rule.check(ok, f"row prologue[{desc}]", {"skipped": "the row produces nothing", "proceeds": "the row is taken up whole, without its disabled cell", "error": "rejected with a PyXFormError citing the row"}[want]
+                   + f", {n_warn} warning(s)", w2j.loc(loop), why_fail=why)
